@@ -52,7 +52,8 @@ class C15(Prop):
             "at every block flush of each write), followed by a fresh auto-load; race: 2-3 simulated processes "
             "auto-loading the same FASTA under a deterministic scheduler, every single pre-emption point "
             "(exhaustive for 2 processes, 1 pre-emption) plus random schedules with up to 3 pre-emptions, with and "
-            "without a valid / stale / missing cache beforehand; names: cold then cached loads of files whose record "
+            "without a valid / stale / missing cache beforehand; fault: an I/O error (OSError, the process keeps running "
+            "its own clean-up) at EVERY operation index of an indexing run, then a fresh auto-load (oracle only); names: cold then cached loads of files whose record "
             "names contain FS / US / no-break space / em space (split differently by the indexer and by the .fai "
             "reader; oracle only: a cached load fails loudly or equals a fresh index). non-trivial = distinct history with at least one "
             "completed auto-load"
@@ -90,6 +91,12 @@ class C15(Prop):
                 yield {"gen": "history/random/symlink", "steps": steps, "symlink": True}
             else:
                 yield {"gen": "history/random", "steps": steps}
+        # an I/O error (not a crash) at every operation of an indexing run: the run fails, its own
+        # clean-up code runs, and the next load must still be right
+        for pre in ([], [["load", None], ["rewrite", 1, True], ["tick"]]):
+            for k in range(n_ops + 1):
+                yield {"gen": "fault/every-point", "steps": [["rewrite", 0, True], ["tick"]] + pre +
+                       [["loadfault", k], ["tick"], ["load", None]]}
         # cached loads of FASTA files whose names the .fai reader splits differently from the indexer
         for k in range(N_MODEL_CONTENTS, len(CONTENTS)):
             yield {"gen": "names/cold-warm", "steps": [["rewrite", k, True], ["tick"], ["load", None], ["tick"], ["load", None]]}
@@ -165,11 +172,13 @@ class C15(Prop):
                     sim.delete(st[1])
                 elif st[0] == "tick":
                     sim.tick()
-                elif st[0] == "load":
+                elif st[0] in ("load", "loadfault"):
                     pid = npid
                     npid += 1
                     sim.trace.append(["spawn"])
-                    if st[1] is not None:
+                    if st[0] == "loadfault":
+                        sim.fault_at[pid] = st[1]
+                    elif st[1] is not None:
                         sim.crash_at[pid] = st[1]
                     res = {}
                     self.one_load(sim, pid, res)
@@ -223,7 +232,7 @@ class C15(Prop):
             _, pid, name, f = t
             return f"HOp {natlit(pid)} ({name} {f})" if f else f"HOp {natlit(pid)} {name}"
 
-        if case["gen"].startswith("names/"):
+        if case["gen"].startswith(("names/", "fault/")):
             return []
         oc = {"good": "OGood", "bad": "OBad", "failed": "OFailed"}
         return lambda names: f"mkCase {listlit(obs['trace'], hop)} {listlit(obs['outcomes'], lambda o: oc[o])}"
